@@ -1446,6 +1446,14 @@ class _IndexGOMixin:
         if self.__contains__(value): #type: ignore
             raise KeyError(f'duplicate key append attempted: {value}')
 
+        # resolve the dtype before mutating anything, as this might raise
+        if self._labels_mutable_dtype is not None:
+            labels_mutable_dtype = resolve_dtype(
+                    dtype_from_element(value),
+                    self._labels_mutable_dtype)
+        else:
+            labels_mutable_dtype = dtype_from_element(value)
+
         # we might need to initialize map if not an increment that keeps loc_is_iloc relationship
         map_new = None
         if self._map is None: # loc_is_iloc
@@ -1456,13 +1464,7 @@ class _IndexGOMixin:
         else:
             self._map.add(value)
 
-        if self._labels_mutable_dtype is not None:
-            self._labels_mutable_dtype = resolve_dtype(
-                    dtype_from_element(value),
-                    self._labels_mutable_dtype)
-        else:
-            self._labels_mutable_dtype = dtype_from_element(value)
-
+        self._labels_mutable_dtype = labels_mutable_dtype
         self._labels_mutable.append(value)
 
         if map_new is not None:
